@@ -48,8 +48,8 @@ CHECKS = {
              "(C06 SI spec) to the signed exponents; whole result invariant under a/b <-> a.b-1 and under factor order), "
              "u-spelling, one rejection theorem per class of the statement (unknown symbol, doubled / dangling separator, signed "
              "positive, fractional / misplaced exponent, embedded blank on the raw text, two units of one base kind, value not "
-             "separated, non-numeric value, blank inside a quantity's units; the separator / exponent / foreign-character "
-             "classes are stated on the text after the u->µ chain and strip). Tie: translator G1/G2 + UnitsText + "
+             "separated, non-numeric value, blank inside a quantity's units — all on the raw text; unknown symbol and two units "
+             "on the factor blocks after the u->µ chain). Tie: translator G1/G2 + UnitsText + "
              "correspondence (all 1-factor strings, all symbol pairs x both separators, random 3-factor strings, round trips, "
              "malformed families from the documentation's wrong examples) + grammar-denotation / must-raise oracle on the real code.",
         note="Lean kernel + {propext, Classical.choice, Quot.sound}; translator; correspondence harness; float()/str(float) of "
